@@ -28,7 +28,7 @@ NOT_REMOVABLE = {'pattern_version', 'latitude', 'longitude', 'precision', 'summa
 TS_KEYS = {'first_seen', 'last_seen', 'valid_from', 'valid_until', 'published', 'first_observed', 'last_observed',
            'start_time', 'stop_time', 'analysis_started', 'analysis_ended', 'submitted'}
 
-OP_KINDS = ['newver', 'revoke', 'mark', 'newver_T', 'illegal']
+OP_KINDS = ['newver', 'revoke', 'mark', 'newver_T', 'illegal', 'remove_custom']
 
 
 def _changes(rng, ch):
@@ -110,7 +110,7 @@ class C05(Profile):
     wall_cap = {'quick': 900, 'thorough': 5 * 3600}
     probes = ['fudge_branch_2.0', 'fudge_branch_2.1', 'no_fudge_needed', 'clock_before_old', 'dict_chain_len>=3',
               'explicit_modified_sub_ms', 'sco_locked_refused', 'revoked_refused', 'reserialised_head',
-              'none_removed_property', 'chain_len>=5', 'granular_marking_as_version_minter']
+              'none_removed_property', 'chain_len>=5', 'granular_marking_as_version_minter', 'remove_custom_stix']
     rule = ('plans are generated from run_seed (1-4 chains over every versionable type of both spec versions in object / '
             'dict / unregistered-dict / SCO forms, 10-60 versioning ops each with a steered clock reading); a run is '
             'non-trivial when >=1 op produced a new version AND >=1 oracle comparison ran on it; distinct = distinct plan digests')
@@ -181,7 +181,8 @@ class C05(Profile):
                     op['changes'] = _changes(rng, ch)
             elif kind == 'illegal':
                 op['what'] = rng.choice(['type', 'id', 'created', 'created_by_ref', 'sco_contrib', 'x_no_custom',
-                                         'revive'])
+                                         'revive', 'sco_contrib_absent', 'sco_contrib_remove'])
+                op['variant'] = rng.randrange(12)
             ops.append(op)
         return {'config': cfg, 'chains': chains, 'ops': ops}
 
@@ -331,6 +332,27 @@ class C05(Profile):
                 expect = 'either'
                 world.probe('granular_marking_as_version_minter')
             changes = {'__marks__': sorted(want)} if want is not None else {'granular_markings': '__ignored__'}
+        elif kind == 'remove_custom':
+            if form.startswith('sco'):
+                world.stat('op_skipped')       # these heads carry custom versioning properties that the x_ convention does not cover
+                return
+            xs = [k for k in hjson if k.startswith('x_')]
+            if hjson['type'].startswith('x-'):
+                out0 = call(V.remove_custom_stix, head)
+                if not out0.ok or out0.value is not None:
+                    raise Violation('exact-changes', 'C05.remove-custom/custom-type-not-discarded', dict(type=hjson['type']))
+                world.log(op=kind, outcome='none')
+                return
+            if not xs:
+                out0 = call(V.remove_custom_stix, head)
+                if not out0.ok or out0.value is not head:
+                    raise Violation('new-object', 'C05.remove-custom/no-custom-content-not-returned-as-is',
+                                    dict(exc=repr(out0.exc)[:200] if not out0.ok else None))
+                world.log(op=kind, outcome='same-object')
+                return
+            fn = lambda: V.remove_custom_stix(head)
+            changes = {k: None for k in xs}
+            world.probe('remove_custom_stix')
         elif kind == 'newver_T':
             T = old_us + op['T_rel']
             tf = op['T_form']
@@ -375,6 +397,16 @@ class C05(Profile):
                     world.stat('op_skipped')
                     return
                 kw = {'name': 'renamed.exe'}
+            elif what in ('sco_contrib_absent', 'sco_contrib_remove'):
+                if not form.startswith('sco') or ch.get('sco_v4'):
+                    world.stat('op_skipped')
+                    return
+                if what == 'sco_contrib_remove':
+                    kw = {'name': None}
+                else:
+                    # an id-contributing property the object does not have yet: setting it would change what the id should be
+                    kw = [{'hashes': {'MD5': 'd41d8cd98f00b204e9800998ecf8427e'}}, {'parent_directory_ref': C.mkid('directory', 5)},
+                          {'extensions': {'ntfs-ext': {'sid': '1'}}}][op.get('variant', 0) % 3]
             elif what == 'x_no_custom':
                 if not is_obj or getattr(head, 'has_custom', False):
                     world.stat('op_skipped')
@@ -409,7 +441,7 @@ class C05(Profile):
                                 dict(exc=repr(out.exc)[:500], head=hjson, op=op))
             if st['revoked']:
                 world.probe('revoked_refused')
-            if kind == 'illegal' and op['what'] == 'sco_contrib':
+            if kind == 'illegal' and op['what'].startswith('sco_contrib'):
                 world.probe('sco_locked_refused')
             world.stat('ops_refused')
             return
